@@ -16,6 +16,7 @@ RULE = ("maps with ground truth by construction (Haar-isometry slices = CPTP, mi
         "(1+delta), Phi1 - t*Phi2 with lambda_min(J) <= -0.05, generic (A,B) pairs, maps with a witnessed negative output eigenvalue) asked in "
         "every accepted representation form; built-ins on parameter grids incl. end points and just outside; a signature is "
         "(monitor, class, form, d_in, d_out) resp. (builtin, parameter class)")
+THOROUGH_REPEAT = 5  # the thorough tier runs its randomised case kinds this many times (new inputs each time)
 ASSUMPTIONS = [
     "verdicts are only required where the definition is satisfied to 1e-12 or violated by a margin >= 1e-3 (never in the tolerance band)",
     "is_trace_preserving is asked with (A,B) pairs or a Choi matrix (flat Kraus lists are not an accepted form); is_unital only for d_in = d_out; "
